@@ -8,6 +8,7 @@ from numba import set_num_threads
 from .utils import get_logger
 from .utils import parallelize
 from bldfm import config
+from bldfm import _verif
 
 logger = get_logger(__name__.split("bldfm.")[-1])
 logger.info("Loaded solver module for steady-state transport solver.")
@@ -73,10 +74,29 @@ def steady_state_transport_solver(
         2D or 3D field of kinematic flux at levels or footprint.
     """
 
+    if _verif.ON:
+        _verif.emit(
+            "enter",
+            shape=list(np.shape(srf_flx)),
+            nz=len(z),
+            domain=list(domain),
+            levels=levels,
+            levels_ndim=int(np.ndim(levels)),
+            modes=list(modes),
+            meas_pt=list(meas_pt),
+            bg=srf_bg_conc,
+            footprint=bool(footprint),
+            analytic=bool(analytic),
+            halo=halo,
+            precision=precision,
+            cache=cache is not None,
+        )
+
     # Check cache for footprint mode
     if cache is not None and footprint:
         cached = cache.get(z, profiles, domain, modes, meas_pt, halo, precision)
         if cached is not None:
+            _verif.emit("return_cached")
             return cached
 
     q0 = srf_flx
@@ -88,6 +108,7 @@ def steady_state_transport_solver(
 
     # Check if modes are even
     if (nlx % 2 > 0) or (nly % 2 > 0):
+        _verif.emit("raise", kind="odd_modes")
         raise ValueError("modes must consist of even numbers.")
 
     # number of grid cells
@@ -118,6 +139,7 @@ def steady_state_transport_solver(
     # extent domain
     nxe = nx + 2 * px
     nye = ny + 2 * py
+    _verif.emit("pad", halo=halo, px=px, py=py, nxe=nxe, nye=nye, padded=list(q0.shape))
 
     if (nlx > nxe) or (nly > nye):
         logger.info(
@@ -128,6 +150,7 @@ def steady_state_transport_solver(
 
     # Deltas for truncated Fourier transform
     dlx, dly = (nxe - nlx) // 2, (nye - nly) // 2
+    _verif.emit("clamp", nlx=nlx, nly=nly, dlx=dlx, dly=dly)
 
     if footprint:
         # Fourier trafo of delta distribution
@@ -143,6 +166,8 @@ def steady_state_transport_solver(
 
         # unshift
         tfftq0 = ifftshift(tfftq0)
+
+    _verif.emit("spectrum", shape=list(tfftq0.shape))
 
     # Fourier summation index
     ilx = fftfreq(nlx, d=1.0 / nlx)
@@ -185,6 +210,7 @@ def steady_state_transport_solver(
         tfftq = np.zeros((nlvls, nly, nlx), dtype=np.complex128)
 
     else:
+        _verif.emit("raise", kind="precision")
         raise ValueError("precision must be single (default) or double.")
 
     tfftp[0, 0, 0] = p000
@@ -216,6 +242,18 @@ def steady_state_transport_solver(
         else:
             # Initialize FFT manager for single-threaded operation
             get_fft_manager(num_threads=1)
+        if _verif.ON:
+            from numba import get_num_threads as _gnt
+            from . import fft_manager as _fm
+            import pyfftw as _pf
+
+            _verif.emit(
+                "thread_setup",
+                cfg=config.NUM_THREADS,
+                numba=_gnt(),
+                mgr=_fm._fft_manager.num_threads,
+                fftw=_pf.config.NUM_THREADS,
+            )
 
         tfftp1, tfftq1, tfftpm1, tfftqm1 = ivp_solver(
             (one, zero), profiles, z, levels, Lx[msk], Ly[msk]
@@ -243,12 +281,14 @@ def steady_state_transport_solver(
 
             if i in levels:
                 tfftp[lvl, 0, 0] = tfftp00
+                _verif.emit("mean_store", node=i, slot=lvl)
                 lvl += 1
 
             tfftp00 = tfftp00 - tfftq0[0, 0] * dz[i] * (0.5 / Kz[i] + 0.5 / Kz[i + 1])
 
         if nz - 1 in levels:
             tfftp[lvl, 0, 0] = tfftp00
+            _verif.emit("mean_store", node=nz - 1, slot=lvl)
 
     # shift green function in Fourier space to measurement point
     if footprint:
@@ -276,6 +316,7 @@ def steady_state_transport_solver(
     # unshift
     fftp = ifftshift(fftp, axes=(1, 2))
     fftq = ifftshift(fftq, axes=(1, 2))
+    _verif.emit("untruncate", shape=list(fftq.shape))
 
     if footprint:
         # use fft to reverse sign, make green's function to footprint
@@ -288,6 +329,7 @@ def steady_state_transport_solver(
 
     conc = p[:, py : nye - py, px : nxe - px]
     flx = q[:, py : nye - py, px : nxe - px]
+    _verif.emit("crop", full=list(q.shape), shape=list(flx.shape))
 
     # grid points for output
     x = np.linspace(0, xmx, nx, endpoint=False)
@@ -296,6 +338,18 @@ def steady_state_transport_solver(
     Z, Y, X = np.meshgrid(z[levels], y, x, indexing="ij")
     grid = (np.squeeze(X), np.squeeze(Y), np.squeeze(Z))
     result = (grid, np.squeeze(conc), np.squeeze(flx))
+
+    if _verif.ON:
+        from . import fft_manager as _fm
+
+        _verif.emit(
+            "return",
+            conc=list(result[1].shape),
+            flx=list(result[2].shape),
+            zlabels=np.asarray(z)[levels],
+            zall=np.asarray(z),
+            mgr=None if _fm._fft_manager is None else _fm._fft_manager.num_threads,
+        )
 
     # Store to cache for footprint mode
     if cache is not None and footprint:
